@@ -19,7 +19,9 @@ TEXT = dict(
           "gives every event its weight: P[draw = v] = sum{w_i : y_i = v}/sum w and P[draw <= y] = the class's own cdf, for every "
           "observation list (ties, zero weights) - by induction over the list with Lebesgue measure; the unweighted counting form; "
           "the exact-rational term the driver evaluates is the real-number one; (iii) noisy draw = quadratic part of U + o Z with Z "
-          "independent standard normal has law (law of the quadratic part) * N(0,o^2) on any probability space; support clauses "
+          "independent standard normal has law (law of the quadratic part) * N(0,o^2) on any probability space, and for U uniform on "
+          "[0,1), a<b, c>=1, o>0 its distribution function P[draw <= y] is the C06 Spec H((y-a)/(b-a)) resp. 1 - H((b-y)/(b-a)), "
+          "H(t) = int_0^1 Phi((t-x)/s) d(x^(c/2)) (independence + Tonelli + substitution, OpdaProofs/NoisyLaw.lean); support clauses "
           "(draws in [a,b]; choice returns an observation of positive weight, index always in range). The functions are tied to "
           "the code on every run deterministically: sample(size, generator=g) equals the model's function of the primitives drawn "
           "from a clone of g (bitwise against the public ppf / the replayed formula; exact atoms for the empirical class), leaves g "
